@@ -99,7 +99,7 @@ theorem loops_contain_break_continue (f : Nat) (env : Env) (body : Expr) (σ σ'
 
 /-- the documented run-time errors, regenerated from src/errors/exec_error.rs -/
 theorem errors_enumerated :
-    Gen.execErrors = ["IndexOutOfBounds", "NegativeLength", "NegativeExponent", "ZeroDivision",
-                      "ZeroModulo", "OverflowShift"] := by decide
+    Gen.execErrors = ["IndexOutOfBounds", "NegativeExponent", "NegativeLength", "OverflowShift",
+                      "ZeroDivision", "ZeroModulo"] := by decide
 
 end Ssl.C02
